@@ -571,6 +571,10 @@ def canon(ast):
     raise Unparsed("not a simple place: %r" % (ast,))
 
 
+OVF_SINK = None      # when a list: every `+` / `*` / `<<` translated adds "the result fits a machine word" to it
+WORD = "18446744073709551616"
+
+
 def to_lean(ast, env, boolean=False, side=None):
     """Translate an arithmetic / boolean AST into a Lean term over Nat.
     env: canonical place string -> Lean term.  Raises Unparsed for anything else.
@@ -605,6 +609,8 @@ def to_lean(ast, env, boolean=False, side=None):
                 side.append("decide (%s ≤ %s)" % (r, l))
             if side is not None and op in ("/", "%"):
                 side.append("decide (0 < %s)" % r)
+            if OVF_SINK is not None and op in ("+", "*"):
+                OVF_SINK.append("decide (%s %s %s < %s)" % (l, op, r, WORD))
             return "(%s %s %s)" % (l, op, r)
         if op == ">>":
             return "(%s >>> %s)" % (_tl(ast[2], env), _tl(ast[3], env))
